@@ -180,6 +180,10 @@ def _source_chain(o):
             t = t[1]
         elif t[0] == "elem":
             t = t[1]
+        elif t[0] == "call" and t[1] in ("builtin:reversed", "builtin:sorted", "builtin:list", "builtin:iter", "builtin:enumerate") and t[2]:
+            t = t[2][0]
+        elif t[0] == "op" and t[1] == "slice" and t[2]:
+            t = t[2][0]
         elif t[0] == "call":
             return t[1].endswith("MHLHistory.load_from_path")
         else:
